@@ -27,42 +27,25 @@ from harness import lib_inline_versions as LV
 # helpers on the real side
 # ------------------------------------------------------------------------------------------------
 
-_ORT = None
-_ORT_PLAIN = None
 ORT_FALLBACKS = {"unoptimised": 0}
+_WORKER = None
 
 
 def ort_run(model: onnx.ModelProto, feeds: dict) -> list:
-    """The model under onnxruntime. Its graph optimiser has defects of its own on valid models (e.g.
-    `GetIndexFromName ... _new_reshape` on Shape/Flatten/Softmax/Reshape followed by a Reshape): a model it
-    refuses is tried again with the optimiser switched off before the refusal counts."""
-    global _ORT, _ORT_PLAIN
-    import onnxruntime as ort
+    """The model under onnxruntime - in a child process (harness/lib_ortworker.py): on some invalid models
+    onnxruntime does not raise but aborts the process; that is a per-case `RuntimeAborted`, never the end of the check.
+    A model its graph optimiser refuses with its own known defect (`GetIndexFromName ... _new_reshape` on valid
+    Shape/Flatten/Softmax/Reshape -> Reshape chains) is tried again there with the optimiser switched off."""
+    global _WORKER
+    from harness import lib_ortworker
 
-    if _ORT is None:
-        so = ort.SessionOptions()
-        so.log_severity_level = 4
-        so.intra_op_num_threads = 1
-        so.inter_op_num_threads = 1
-        _ORT = so
-        so2 = ort.SessionOptions()
-        so2.log_severity_level = 4
-        so2.intra_op_num_threads = 1
-        so2.inter_op_num_threads = 1
-        so2.graph_optimization_level = ort.GraphOptimizationLevel.ORT_DISABLE_ALL
-        _ORT_PLAIN = so2
-    b = model.SerializeToString()
+    if _WORKER is None:
+        _WORKER = lib_ortworker.OrtWorker()
     try:
-        sess = ort.InferenceSession(b, _ORT, providers=["CPUExecutionProvider"])
-    except Exception as e:  # noqa: BLE001
-        # ONLY the known optimiser defect is retried: on a really invalid model the unoptimised session does not
-        # raise but ABORTS the process (vector index assertion inside onnxruntime) - exit 134, no verdict
-        if "GetIndexFromName" not in str(e):
-            raise
-        onnx.checker.check_model(model, full_check=True)
-        sess = ort.InferenceSession(b, _ORT_PLAIN, providers=["CPUExecutionProvider"])
-        ORT_FALLBACKS["unoptimised"] += 1
-    return sess.run(None, feeds)
+        return _WORKER.run(model.SerializeToString(), feeds)
+    finally:
+        ORT_FALLBACKS["unoptimised"] = _WORKER.fallbacks
+        ORT_FALLBACKS["aborted"] = _WORKER.crashes
 
 
 def np_dtype(elem: int):
@@ -1859,7 +1842,8 @@ def _oracle_phase(ck, models, snaps, rng, scope_obs):
                                        "summary": L.summary(m), "features": meta["features"]})
         ck.sample({"model": L.summary(m), "features": meta["features"]}, 4)
     ck.cov.update({"oracle_compositions": n_oracle, "oracle_forms": form_hist, "hostile_outer_names": dict(sorted(HOSTILE_HIST.items())),
-                   "onnxruntime_retries_without_optimiser": ORT_FALLBACKS["unoptimised"]})
+                   "onnxruntime_retries_without_optimiser": ORT_FALLBACKS["unoptimised"],
+                   "onnxruntime_process_aborts": ORT_FALLBACKS.get("aborted", 0)})
 
 
 def _finish_evidence(ck):
